@@ -7,10 +7,13 @@ bootstrap()
 from d42.custom_type import CustomSchema, Props, register_type  # noqa: E402
 
 COUNTS = {}
+SEEN_KWARGS = []   # (op, kwargs keys) of every hook call, cleared by the monitor before an observed call
 
 
-def _note(op):
+def _note(op, kwargs=None):
     COUNTS[op] = COUNTS.get(op, 0) + 1
+    if kwargs is not None:
+        SEEN_KWARGS.append((op, dict(kwargs)))
 
 
 class FwdProps(Props):
@@ -24,19 +27,19 @@ class FwdSchema(CustomSchema[FwdProps]):
         return self.props.inner
 
     def __represent__(self, visitor, *, indent=0, **kwargs):
-        _note("represent")
+        _note("represent", kwargs)
         return self.props.inner.__accept__(visitor, indent=indent, **kwargs)
 
     def __generate__(self, visitor, **kwargs):
-        _note("generate")
+        _note("generate", kwargs)
         return self.props.inner.__accept__(visitor, **kwargs)
 
     def __validate__(self, visitor, *, value, path, **kwargs):
-        _note("validate")
+        _note("validate", kwargs)
         return self.props.inner.__accept__(visitor, value=value, path=path, **kwargs)
 
     def __substitute__(self, visitor, *, value, **kwargs):
-        _note("substitute")
+        _note("substitute", kwargs)
         res = self.props.inner.__accept__(visitor, value=value, **kwargs)
         return self.__class__(self.props.update(inner=res))
 
